@@ -4,6 +4,7 @@ import (
 	"github.com/google/rpmpack"
 	"github.com/goreleaser/nfpm/v2/files"
 	"time"
+	"verif/harness/internal/props"
 
 	"bufio"
 	"fmt"
@@ -139,257 +140,25 @@ func octLit(e ast.Expr) string {
 func genScripts() (string, error) {
 	var b strings.Builder
 	b.WriteString("import NfpmModel.Bytes\nnamespace Nfpm.Generated\nopen Nfpm\n")
-
-	// deb: specialFiles := map[string]*fileAndMode{ "preinst": {fileName: info.Scripts.PreInstall, mode: 0o755}, ...}
-	{
-		s, err := parse("deb/deb.go")
-		if err != nil {
-			return "", err
-		}
-		var ss []slot
-		found := false
-		// the literal is looked for in every function of the package (whatever the variable and the function are called):
-		// a map literal whose values are {fileName: <selector>, mode: <octal>} records
-		for _, fd := range pkgFuncs(s) {
-			ast.Inspect(fd, func(n ast.Node) bool {
-				cl, ok := n.(*ast.CompositeLit)
-				if !ok || found {
-					return true
-				}
-				if _, isMap := cl.Type.(*ast.MapType); !isMap {
-					return true
-				}
-				var cand []slot
-				for _, el := range cl.Elts {
-					kv, ok := el.(*ast.KeyValueExpr)
-					if !ok {
-						return true
-					}
-					k, okk := unquote(kv.Key)
-					inner, oki := kv.Value.(*ast.CompositeLit)
-					if !okk || !oki {
-						return true
-					}
-					sl := slot{slot: k}
-					hasName := false
-					for _, f := range inner.Elts {
-						fkv, ok := f.(*ast.KeyValueExpr)
-						if !ok {
-							continue
-						}
-						switch fullSel(fkv.Key) {
-						case "fileName":
-							sl.sel = selString(fkv.Value)
-							hasName = true
-						case "mode":
-							sl.mode = octLit(fkv.Value)
-						}
-					}
-					if !hasName {
-						return true
-					}
-					cand = append(cand, sl)
-				}
-				if len(cand) > 0 {
-					ss, found = cand, true
-				}
-				return true
-			})
-		}
-		if !found {
-			return "", fmt.Errorf("deb specialFiles literal not found")
-		}
-		b.WriteString(leanSlots("scripts_deb", ss))
+	b.WriteString("-- tabulated by execution: for every format and every script selector (found by reflection) alone, a package is\n-- built with a marker script and decoded; the row says which slot held the marker, and with what mode\n")
+	tmp, err := os.MkdirTemp("", "g2scripts-")
+	if err != nil {
+		return "", err
 	}
-	// apk: scripts := map[string]string{".pre-install": info.Scripts.PreInstall, ...}
-	{
-		s, err := parse("apk/apk.go")
-		if err != nil {
-			return "", err
-		}
-		var ss []slot
-		found := false
-		if fd := s.funcDecl("createBuilderControl"); fd != nil {
-			ast.Inspect(fd, func(n ast.Node) bool {
-				as, ok := n.(*ast.AssignStmt)
-				if !ok || len(as.Lhs) != 1 || len(as.Rhs) != 1 {
-					return true
-				}
-				id, ok := as.Lhs[0].(*ast.Ident)
-				if !ok || id.Name != "scripts" {
-					return true
-				}
-				cl, ok := as.Rhs[0].(*ast.CompositeLit)
-				if !ok {
-					return true
-				}
-				found = true
-				for _, el := range cl.Elts {
-					kv := el.(*ast.KeyValueExpr)
-					k, _ := unquote(kv.Key)
-					ss = append(ss, slot{slot: k, sel: selString(kv.Value)})
-				}
-				return true
-			})
-		}
-		if !found {
-			return "", fmt.Errorf("apk scripts literal not found")
-		}
-		// mode of newScriptInsideTarGz header
-		mode := "0"
-		if fd := s.funcDecl("newScriptInsideTarGz"); fd != nil {
-			ast.Inspect(fd, func(n ast.Node) bool {
-				kv, ok := n.(*ast.KeyValueExpr)
-				if ok && fullSel(kv.Key) == "Mode" {
-					mode = octLit(kv.Value)
-				}
-				return true
-			})
-		}
-		for i := range ss {
-			ss[i].mode = mode
-		}
-		b.WriteString(leanSlots("scripts_apk", ss))
+	defer os.RemoveAll(tmp)
+	tab, err := props.TabulateScriptSlots(tmp)
+	if err != nil {
+		return "", err
 	}
-	// arch: if info.X != "" { scripts["name"] = info.X }
-	{
-		s, err := parse("arch/arch.go")
-		if err != nil {
-			return "", err
-		}
+	for _, x := range [][2]string{{"deb", "scripts_deb"}, {"apk", "scripts_apk"}, {"archlinux", "scripts_arch"}, {"ipk", "scripts_ipk"}, {"rpm", "scripts_rpm"}} {
 		var ss []slot
-		if fd := s.funcDecl("createScripts"); fd != nil {
-			for _, st := range fd.Body.List {
-				is, ok := st.(*ast.IfStmt)
-				if !ok {
-					continue
-				}
-				be, ok := is.Cond.(*ast.BinaryExpr)
-				if !ok || be.Op != token.NEQ {
-					continue
-				}
-				cond := selString(be.X)
-				for _, bs := range is.Body.List {
-					as, ok := bs.(*ast.AssignStmt)
-					if !ok || len(as.Lhs) != 1 {
-						continue
-					}
-					ie, ok := as.Lhs[0].(*ast.IndexExpr)
-					if !ok {
-						continue
-					}
-					k, _ := unquote(ie.Index)
-					val := selString(as.Rhs[0])
-					// guard and assigned value must be the same selector
-					if val != cond {
-						val = val + "/guard:" + cond
-					}
-					ss = append(ss, slot{slot: k, sel: val})
-				}
-			}
+		for _, r := range tab[x[0]] {
+			ss = append(ss, slot{slot: r[0], sel: r[1], mode: r[2]})
 		}
 		if len(ss) == 0 {
-			return "", fmt.Errorf("arch createScripts if-chain not found")
+			return "", fmt.Errorf("G2: no script slot found for %s", x[0])
 		}
-		b.WriteString(leanSlots("scripts_arch", ss))
-	}
-	// ipk: getScripts returns []files.Content{{Destination: "preinst", Source: info.Scripts.PreInstall, FileInfo: &..{Mode: 0o755}}}
-	{
-		s, err := parse("ipk/ipk.go")
-		if err != nil {
-			return "", err
-		}
-		var ss []slot
-		if fd := s.funcDecl("getScripts"); fd != nil {
-			ast.Inspect(fd, func(n ast.Node) bool {
-				rs, ok := n.(*ast.ReturnStmt)
-				if !ok || len(rs.Results) != 1 {
-					return true
-				}
-				cl, ok := rs.Results[0].(*ast.CompositeLit)
-				if !ok {
-					return true
-				}
-				for _, el := range cl.Elts {
-					inner, ok := el.(*ast.CompositeLit)
-					if !ok {
-						continue
-					}
-					var sl slot
-					for _, f := range inner.Elts {
-						fkv, ok := f.(*ast.KeyValueExpr)
-						if !ok {
-							continue
-						}
-						switch fullSel(fkv.Key) {
-						case "Destination":
-							sl.slot, _ = unquote(fkv.Value)
-						case "Source":
-							sl.sel = selString(fkv.Value)
-						case "FileInfo":
-							ast.Inspect(fkv.Value, func(n ast.Node) bool {
-								kv, ok := n.(*ast.KeyValueExpr)
-								if ok && fullSel(kv.Key) == "Mode" {
-									sl.mode = octLit(kv.Value)
-								}
-								return true
-							})
-						}
-					}
-					ss = append(ss, sl)
-				}
-				return false
-			})
-		}
-		if len(ss) == 0 {
-			return "", fmt.Errorf("ipk getScripts literal not found")
-		}
-		b.WriteString(leanSlots("scripts_ipk", ss))
-	}
-	// rpm: if info.X != "" { data := ReadFile(info.X); rpm.AddY(string(data)) }
-	{
-		s, err := parse("rpm/rpm.go")
-		if err != nil {
-			return "", err
-		}
-		var ss []slot
-		if fd := s.funcDecl("addScriptFiles"); fd != nil {
-			for _, st := range fd.Body.List {
-				is, ok := st.(*ast.IfStmt)
-				if !ok {
-					continue
-				}
-				be, ok := is.Cond.(*ast.BinaryExpr)
-				if !ok || be.Op != token.NEQ {
-					continue
-				}
-				cond := selString(be.X)
-				read, add := "", ""
-				ast.Inspect(is.Body, func(n ast.Node) bool {
-					ce, ok := n.(*ast.CallExpr)
-					if !ok {
-						return true
-					}
-					fn := fullSel(ce.Fun)
-					if fn == "os.ReadFile" && len(ce.Args) == 1 {
-						read = selString(ce.Args[0])
-					}
-					if strings.HasPrefix(fn, "rpm.Add") {
-						add = strings.TrimPrefix(fn, "rpm.")
-					}
-					return true
-				})
-				sel := read
-				if read != cond {
-					sel = read + "/guard:" + cond
-				}
-				ss = append(ss, slot{slot: add, sel: sel})
-			}
-		}
-		if len(ss) == 0 {
-			return "", fmt.Errorf("rpm addScriptFiles chain not found")
-		}
-		b.WriteString(leanSlots("scripts_rpm", ss))
+		b.WriteString(leanSlots(x[1], ss))
 	}
 	b.WriteString("end Nfpm.Generated\n")
 	return b.String(), nil
